@@ -56,7 +56,7 @@ enum { K_WFCQ, K_WFQ, K_WFS, K_LFS, K_RCULFS, K_LFQ };
 enum { S_LOCK, S_SINGLE, S_RCU };
 enum { L_INS = 1, L_REM, L_EMPTY, L_SNAP, L_POPALL, L_SPL_DRAIN, L_SPL_APPEND, L_DESTROY };
 enum { CF_REM_OVERLAP_INS = 0, CF_WOULDBLOCK = 1, CF_LAST = 2, CF_SPLICE_OVERLAP = 3, CF_LIN_INCONCLUSIVE = 4, CF_RECYCLED = 5, CF_POPALL_OVERLAP = 6,
-       CF_REM_OVERLAP_REM = 7, CF_SOLO_RAN = 8, CF_SOLO_INFLIGHT = 9, CF_NULL_SEEN = 10, CF_FREED = 11 };
+       CF_REM_OVERLAP_REM = 7, CF_SOLO_RAN = 8, CF_SOLO_INFLIGHT = 9, CF_NULL_SEEN = 10, CF_FREED = 11, CF_CROWD = 12 };
 #define R_NULL 0L
 #define R_WOULDBLOCK (-2L)
 #define R_NA (-1L)
@@ -521,10 +521,10 @@ static void do_empty(int q)
 	h_end(h, !!r, R_NA);
 }
 
-enum { OP_ENQ, OP_DEQ, OP_SPLICE, OP_ITER, OP_POPALL, OP_EMPTY, OP_GATE, OP_YIELD, OP_BARRIER, OP_MKHELPER, OP_BAD };
+enum { OP_ENQ, OP_DEQ, OP_SPLICE, OP_ITER, OP_POPALL, OP_EMPTY, OP_GATE, OP_YIELD, OP_BARRIER, OP_MKHELPER, OP_CDEQ, OP_CENQ, OP_DRAIN, OP_BAD };
 static NS int fetch(int t, int i, long *a)
 {
-	static const char *names[] = { "enq", "deq", "splice", "iter", "popall", "empty", "gate", "yield", "barrier", "mkhelper" };
+	static const char *names[] = { "enq", "deq", "splice", "iter", "popall", "empty", "gate", "yield", "barrier", "mkhelper", "cdeq", "cenq", "drain" };
 	const struct ds_op *o = ds_op(t, i);
 	a[0] = o->a[0]; a[1] = o->a[1]; a[2] = o->a[2];
 	for (int k = 0; k < OP_BAD; k++) if (!strcmp(o->name, names[k])) return k;
@@ -537,6 +537,83 @@ static NS void solo_inflight_class(void)
 	for (int i = 0; i < nhist; i++) if (hist[i].ret == ~0ul && hist[i].thr != ds_scen_index()) ds_flag(CF_SOLO_INFLIGHT);
 }
 static int uses_rcu(void);
+/* ---- crowd mode (cfg crowd N): container 0 is pre-filled by T0 with N items in one scheduling step; threads remove (cdeq: one removal; drain k: k
+ * removals, each a unit for the `harass` schedule) and insert (cenq) crowd items. Too many operations for the linearizability search, so the oracles are
+ * counting ones: every item is removed at most once and never invented; a removal reports 'empty' only if the container may have been empty at some
+ * moment of the call (insertions completed before it began, minus removals begun before it returned, is not positive); one thread's removals come out in
+ * container order when nobody inserts concurrently; at the end every item is accounted for. ---- */
+#define MAXCROWD 400
+static struct item *crowd; static int ncrowd, crowd_next;
+static unsigned char crowd_removed[MAXCROWD + 64];
+static long crowd_ins_done, crowd_rem_begun, crowd_rem_ok, crowd_late_ins;
+static long crowd_last[MAXTH];
+static NS long crowd_snapshot_ins(void) { return crowd_ins_done; }
+static NS void crowd_rem_begin(void) { crowd_rem_begun++; }
+static NS void crowd_empty_result(long ins_before, int victim)
+{
+	/* removals begun before now, other than this one */
+	long others = crowd_rem_begun - 1;
+	if (ins_before - others > 0)
+		ds_fail("removal returned 'empty' although %ld insertions had completed before it was called and only %ld other removals had even begun when it returned: at least %ld items were in the container during the whole call%s",
+			ins_before, others, ins_before - others, victim ? " (the removal that was interfered with on every step)" : "");
+}
+static NS void crowd_got(void *n, const char *what)
+{
+	struct item *it = n;
+	if (it < crowd || it >= crowd + ncrowd || ((char *)it - (char *)crowd) % sizeof *it) ds_fail("%s returned pointer %p which is not an item of this container (dummy/internal node or garbage)", what, n);
+	int i = (int)(it - crowd);
+	if (crowd_removed[i]++) ds_fail("%s returned item %d a second time", what, i);
+	if (i >= crowd_next) ds_fail("%s returned item %d which was never inserted", what, i);
+	int me = ds_scen_index();
+	if (!crowd_late_ins && (kind == K_LFQ) && crowd_last[me] && i + 1 <= crowd_last[me]) ds_fail("one thread's removals came out of order: item %d after item %ld (FIFO queue, single inserter)", i, crowd_last[me] - 1);
+	crowd_last[me] = i + 1;
+	crowd_rem_ok++;
+}
+static NS struct item *crowd_new(void) { if (crowd_next >= ncrowd) return NULL; return &crowd[crowd_next++]; }
+static NS void crowd_ins_ret(int late) { crowd_ins_done++; if (late) crowd_late_ins = 1; }
+static void crowd_ins_one(struct item *it)
+{
+	switch (kind) {
+	case K_WFS: cds_wfs_node_init(&it->n.ws); (void) cds_wfs_push(&ws[0], &it->n.ws); break;
+	case K_LFS: cds_lfs_node_init(&it->n.ls); (void) cds_lfs_push(&ls[0], &it->n.ls); break;
+	case K_RCULFS: cds_lfs_node_init_rcu(&it->n.lr); (void) cds_lfs_push_rcu(&lr[0], &it->n.lr); break;
+	case K_LFQ: cds_lfq_node_init_rcu(&it->n.lq); RLOCK(); cds_lfq_enqueue_rcu(&lq[0], &it->n.lq); RUNLOCK(); break;
+	default: ds_bad_case("crowd mode: container kind not supported");
+	}
+}
+static void crowd_ins(void) { struct item *it = crowd_new(); if (!it) return; crowd_ins_one(it); crowd_ins_ret(1); }
+static void crowd_rem(int victim)
+{
+	void *n = NULL;
+	long ins_before = crowd_snapshot_ins();
+	crowd_rem_begin();
+	switch (kind) {
+	case K_WFS: rcu_in(); n = __cds_wfs_pop_blocking(&ws[0]); rcu_out(); break;
+	case K_LFS: rcu_in(); n = __cds_lfs_pop(&ls[0]); rcu_out(); break;
+	case K_RCULFS: RLOCK(); n = cds_lfs_pop_rcu(&lr[0]); RUNLOCK(); break;
+	case K_LFQ: RLOCK(); n = cds_lfq_dequeue_rcu(&lq[0]); RUNLOCK(); break;
+	default: ds_bad_case("crowd mode: container kind not supported");
+	}
+	if (victim) ds_note("victim removal -> %s", n ? "item" : "empty");
+	if (!n) crowd_empty_result(ins_before, victim); else crowd_got(n, "removal");
+}
+static NS void crowd_setup(int n) { if (n > MAXCROWD) ds_bad_case("crowd too large"); ncrowd = n + 40; }
+static void crowd_fill(int n)
+{
+	crowd_setup(n);
+	crowd = calloc((size_t)ncrowd, sizeof *crowd);
+	ds_flag(CF_CROWD);
+	ds_bulk(1);
+	for (int i = 0; i < n; i++) { struct item *it = crowd_new(); crowd_ins_one(it); crowd_ins_ret(0); }
+	ds_bulk(0);
+}
+static NS void crowd_final(void)
+{
+	long left = 0;
+	for (int i = 0; i < crowd_next; i++) if (!crowd_removed[i]) left++;
+	if (left) ds_fail("%ld of the %d inserted items were neither removed by a thread nor found by the final drain", left, crowd_next);
+}
+
 static void run_program(int t)
 {
 	int n = ds_nops(t);
@@ -556,6 +633,9 @@ static void run_program(int t)
 		case OP_YIELD: ds_yield(); break;
 		/* call_rcu housekeeping by other threads (C17: a thread may be suspended inside it, holding the library's call_rcu mutex, while the solo thread
 		 * dequeues - rculfqueue hands its dummy nodes to call_rcu) */
+		case OP_CDEQ: crowd_rem(1); break;
+		case OP_CENQ: crowd_ins(); break;
+		case OP_DRAIN: for (long k = 0; k < a[0]; k++) { crowd_rem(0); ds_unit(); } break;
 		case OP_BARRIER: if (uses_rcu()) F(barrier)(); break;
 		case OP_MKHELPER: if (uses_rcu()) { struct call_rcu_data *c = F(create_call_rcu_data)(0, -1); if (c) F(call_rcu_data_free)(c); } break;
 		}
@@ -613,6 +693,30 @@ static void scenario(void)
 		}
 	}
 	if (ds_cfg("solo", -1) >= 0 && uses_rcu()) (void) F(get_default_call_rcu_data)();	/* C17: the one-time creation of the default call_rcu helper is not part of any operation */
+	if (ds_cfg("crowd", 0) > 0) {
+		if (sync_mode != S_RCU) ds_bad_case("crowd mode needs the RCU scheme");
+		crowd_fill((int)ds_cfg("crowd", 0));
+		for (int t = 1; t < np; t++) tids[t] = ds_spawn(thread_main, (void *)(long)t);
+		for (int t = 1; t < np; t++) ds_join(tids[t]);
+		ds_op_begin(99);
+		ds_bulk(1);
+		for (int guard = 0; guard <= MAXCROWD + 50; guard++) {
+			void *n = NULL;
+			switch (kind) {
+			case K_WFS: n = __cds_wfs_pop_blocking(&ws[0]); break;
+			case K_LFS: n = __cds_lfs_pop(&ls[0]); break;
+			case K_RCULFS: RLOCK(); n = cds_lfs_pop_rcu(&lr[0]); RUNLOCK(); break;
+			case K_LFQ: RLOCK(); n = cds_lfq_dequeue_rcu(&lq[0]); RUNLOCK(); break;
+			}
+			if (!n) break;
+			crowd_got(n, "final drain");
+		}
+		ds_bulk(0);
+		crowd_final();
+		if (kind == K_LFQ) { int rc = cds_lfq_destroy_rcu(&lq[0]); if (rc) ds_fail("cds_lfq_destroy_rcu of the drained queue returned %d", rc); }
+		if (uses_rcu()) { F(barrier)(); F(unregister_thread)(); }
+		ds_done();
+	}
 	run_program(0);
 	for (int t = 1; t < np; t++) tids[t] = ds_spawn(thread_main, (void *)(long)t);
 	if (ds_cfg("solo", -1) >= 0) {
